@@ -424,6 +424,10 @@ class Check:
     def finish(self, rule, trusted_base, assumptions, exhaustive=False, extra=None):
         if REPLAY_OF is not None:
             return self.finish_replay()
+        if self.evaluations == 0 and self.proof and self.proof.get('driver_ok'):
+            # a check that compared nothing must not pass (a harness mistake, e.g. an early return): no verdict
+            print('INFRASTRUCTURE ERROR in check %s: the driver was built but no case was evaluated (exit 2, not a verdict)' % self.prop)
+            sys.exit(2)
         known = load_known().get('known', [])
         violations = 0
         lines = []
